@@ -203,8 +203,69 @@ pub fn run_case(id: &str, f: impl FnOnce() -> String + std::panic::UnwindSafe) {
     let r = std::panic::catch_unwind(f);
     let res = match r {
         Ok(s) => s,
-        Err(_) => "PANIC".to_string(),
+        Err(_) => {
+            // branch threads that were not joined (the caller panicked first) may still be finishing
+            std::thread::sleep(std::time::Duration::from_millis(30));
+            "PANIC".to_string()
+        }
     };
     let lg = take_log();
     println!("CASE\t{}\t{}\t{}", id, res, lg.join(" "));
+}
+
+// ---- rendezvous: all `n` parties of `group` must be inside their callback at the same time (C08) ----
+pub static MEET: Mutex<Vec<(usize, usize)>> = Mutex::new(Vec::new());
+pub fn meet<T: Show>(id: i64, group: usize, n: usize) -> impl Fn(T) -> T + Send + Sync + 'static {
+    log(format!("E{}", id));
+    move |x| {
+        log(format!("C{}({})", id, x.show()));
+        {
+            let mut m = MEET.lock().unwrap_or_else(|e| e.into_inner());
+            match m.iter_mut().find(|(g, _)| *g == group) {
+                Some(e) => e.1 += 1,
+                None => m.push((group, 1)),
+            }
+        }
+        let t0 = std::time::Instant::now();
+        loop {
+            let c = MEET.lock().unwrap_or_else(|e| e.into_inner()).iter().find(|(g, _)| *g == group).map(|e| e.1).unwrap_or(0);
+            if c >= n {
+                break;
+            }
+            if t0.elapsed() > std::time::Duration::from_millis(1500) {
+                log(format!("TIMEOUT{}", id));
+                break;
+            }
+            std::thread::sleep(std::time::Duration::from_micros(200));
+        }
+        x
+    }
+}
+
+// ---- panicking callbacks (C18) ----
+pub fn boom_i(id: i64) -> impl Fn(i64) -> i64 + Send + Sync + 'static {
+    log(format!("E{}", id));
+    move |x| {
+        log(format!("C{}({})", id, x.show()));
+        panic!("boom")
+    }
+}
+pub fn boom_o(id: i64) -> impl Fn(i64) -> Option<i64> + Send + Sync + 'static {
+    log(format!("E{}", id));
+    move |x| {
+        log(format!("C{}({})", id, x.show()));
+        panic!("boom")
+    }
+}
+pub fn boom_r(id: i64) -> impl Fn(i64) -> Result<i64, i64> + Send + Sync + 'static {
+    log(format!("E{}", id));
+    move |x| {
+        log(format!("C{}({})", id, x.show()));
+        panic!("boom")
+    }
+}
+/// a panicking operand EXPRESSION (evaluated where the operand stands)
+pub fn boom_e<T>(id: i64) -> T {
+    log(format!("E{}", id));
+    panic!("boom")
 }
